@@ -248,4 +248,22 @@ PROPS = {
         "level_text": "Theorems (Props/C17.lean) for strings of any length and every row of the generated dialect table: writer_quote_readable, ident_round_trip, literal_round_trip, write_read, write_read_backslash, backslash_counterexample. The tokenizer model agrees with the five dialects exercised on every generated string (text and value read back). Function spellings, casts and LIMIT/TOP forms are not modelled: for them the check renders generated relations in all eight dialects, parses them with sqlparser, reads them back with the library and, for SQLite, executes them.",
         "level_note": "Trusted: Lean kernel; the dialect dump. Modelled, not verified: per-dialect function tables (checked by the dialect stream only); engines other than SQLite are represented by sqlparser's dialect parsers.",
     },
+    "C18": {
+        "lean_modules": ["QrlewModel.Props.C18"],
+        "streams": [
+            {"name": "arith", "n_quick": 20000, "n_thorough": 2000000, "compare": True, "min_per_proc": 2000},
+            {"name": "total", "n_quick": 3000, "n_thorough": 300000, "compare": False, "min_per_proc": 300},
+            {"name": "sqlx", "n_quick": 10000, "n_thorough": 1000000, "compare": False, "min_per_proc": 500},
+            {"name": "c08x", "n_quick": 2000, "n_thorough": 100000, "compare": False, "min_per_proc": 500},
+            {"name": "dialect", "n_quick": 2000, "n_thorough": 200000, "compare": False, "min_per_proc": 500},
+            {"name": "rules", "n_quick": 600, "n_thorough": 60000, "compare": False, "min_per_proc": 200},
+            {"name": "scope", "n_quick": 3000, "n_thorough": 300000, "compare": False, "min_per_proc": 500},
+        ],
+        "rule": "arith: integer intervals with bounds from {i64::MIN, MIN+1, -2^62, -3037000500, -32, -2..2, 6, 3037000500, 2^62, MAX-1, MAX} and small random bounds, float intervals with bounds from {f64::MIN, -2.5, -1e-300, -0.0, 0.0, 1e-300, 0.25, 2.5, f64::MAX}: type images of divide / multiply / plus / minus and absolute_upper_bound, panic-or-hull compared with the Lean totality model; total: generated queries (arithmetic incl. division, abs, exp, ln, sqrt, pow, CASE, casts, greatest, coalesce; aggregates incl. var / stddev; GROUP BY; joins) over a table with 16 extreme column types (full i64 / f64, ranges ending at or containing 0, single points, i64::MIN, 130-value sets, two-point {MIN, MAX}, nullable) x compile, schema, render (2 dialects), privacy-unit rewriting (Soft, Hard), DP rewriting with budgets from {1, 0, 1e-300, 1e300, inf} x {1e-5, 0, 1, 1e-300}; sqlx / c08x / dialect / rules / scope: the compile, render, read-back and rewriting phases of the other properties' streams, each under catch_unwind with a per-case watchdog; non-trivial = compiled",
+        "trusted_base": COMMON_TRUST + ["std::panic::catch_unwind + the harness panic hook (location, message) as the observer of panics; a watchdog thread turns a hang into a reported failure"],
+        "assumptions": ["the supported fragment is represented by the generators of the streams listed; constructs outside them are not exercised", "overflow checks are on in the harness build (debug profile), as in a debug build of the library"],
+        "technique": "Lean 4 proof over a model of the i64 / f64 corner arithmetic behind type images (saturating + - * are total, ordered and in range, so the interval assertion cannot fire on integers; the integer-division image panics iff the divisor interval contains 0; a NaN corner of the float-division image exists iff both intervals contain 0; abs-based bound panics iff a bound is i64::MIN, the repaired one is total) + model/implementation correspondence on panic-or-hull at the range edges + catch_unwind / watchdog over every public entry point on generated queries and extreme schemas",
+        "level_text": "Theorems (Props/C18.lean) for all integers: clampI_range, clampI_mono, corners_ordered, mul_total, whole_total, divImage_panics_iff, fdiv_nan_corner_iff, absUpperOld_none_iff, absUpperNew_eq_old. The model's panic-or-hull verdict is compared with the real super_image at the edges of the ranges. Totality of the SQL reader, the renderer and the rewritings as a whole is not a theorem: it is observed under catch_unwind over generated queries, extreme schemas and degenerate budgets, with every known panic listed individually.",
+        "level_note": "Trusted: Lean kernel; catch_unwind. Modelled, not verified: only the arithmetic core is modelled; the 160-odd todo!() / unwrap() sites of the SQL layer are covered by the generated-query streams only. Stack overflow and allocation failure abort the process (reported as process-abort by the runner), not as a Rust panic.",
+    },
 }
